@@ -5,7 +5,7 @@ import GroupbyVerif.Model.Kernels
 
 Each is a fixed arithmetic combination of kernel results (`core.py`):
 
-* `var`   : `(sum_squares − sum² / count) / (count − ddof)` from three kernel calls;
+* `var`   : `(sum_squares − sum² / count) / (count − ddof)` from three kernel calls, null when `count ≤ ddof`;
 * `ratio` : `agg(values1, "sum") / agg(values2, "sum")` under the same mask;
 * `subset_ratio` : sum under `subset_mask & global_mask` over sum under `global_mask`;
 * `density` (one key) : `100 · sum_g / Σ_g sum_g` (the `'All'` row of the totals).
@@ -25,10 +25,11 @@ def numsOf (vs : List Val) : List Int := vs.filterMap Val.toInt?
 /-- float division, exactly: `none` when the divisor is zero -/
 def fdiv (a b : Rat) : Option Rat := if b = 0 then none else some (a / b)
 
-/-- one group of `GroupBy.var`: `(s2 − s² / n) / (n − ddof)` -/
+/-- one group of `GroupBy.var`: `(s2 − s² / n) / (n − ddof)`, null when the group has no more values than `ddof` -/
 def varFrom (s2 s cnt : Val) (ddof : Nat) : Option Rat :=
   match s2, s, cnt with
   | .num a, .num b, .num n =>
+    if n ≤ (ddof : Int) then none else
     match fdiv ((b : Rat) * (b : Rat)) (n : Rat) with
     | none => none
     | some q => fdiv ((a : Rat) - q) ((n : Rat) - (ddof : Rat))
